@@ -350,10 +350,16 @@ func ruleOldPrioDelete(w *core.World, r *core.Report, low *ssa.Function) {
 				if x, _, isNil := core.NilTest(g.If.Cond); isNil && isErrorType(x.Type()) {
 					continue // error checks of earlier stages
 				}
+				if !core.CanFollow(m, g.If) {
+					continue // a branch of an earlier stage of the pipeline, not of the per-intent loop this write sits in
+				}
 				sl := core.DataSlice(low, []ssa.Value{g.If.Cond})
 				for v := range sl.Values {
 					c, ok := v.(*ssa.Call)
 					if ok && core.CalleeIs(c, "tree.RootEntry.GetUpdatesForOwner", "tree.RootEntry.GetDeletesForOwner") {
+						if os.Getenv("DSCHECK_DEBUG_OPD") != "" {
+							fmt.Printf("OPD bad: guard %s at %s depends on %s\n", g.If.Cond, w.InstrPos(g.If), c)
+						}
 						bad = true // what the tree holds for the owner after the merge IS the new content
 						continue
 					}
@@ -367,6 +373,9 @@ func ruleOldPrioDelete(w *core.World, r *core.Report, low *ssa.Function) {
 						}
 					}
 					if !fromOld {
+						if os.Getenv("DSCHECK_DEBUG_OPD") != "" {
+							fmt.Printf("OPD bad2: guard %s at %s depends on %s\n", g.If.Cond, w.InstrPos(g.If), c)
+						}
 						bad = true
 					}
 				}
@@ -431,10 +440,14 @@ func c05(w *core.World, r *core.Report) {
 	getRb := w.Func("pkg/datastore/types", "Transaction", "GetRollbackTransaction")
 	cancel := w.Func("pkg/datastore/types", "TransactionManager", "Cancel")
 	adapter := w.Func("pkg/datastore", "DatastoreRollbackAdapter", "TransactionRollback")
-	tcb := w.Func("pkg/datastore/types", "Transaction", "rollback")
-	if low == nil || getRb == nil || cancel == nil || adapter == nil || tcb == nil {
+	tcbs := timerCallbacks(w)
+	if len(tcbs) == 0 {
+		w.NoteUnresolved("timer callback (function handed to types.NewTransactionCancelTimer)")
+	}
+	if low == nil || getRb == nil || cancel == nil || adapter == nil || len(tcbs) == 0 {
 		return
 	}
+	tcb := tcbs[0]
 
 	// ---- OLDPRIO-FLOW
 	r.Rule("OLDPRIO-FLOW", 2, "value flow: the priority the old content was stored under (UpdateSlice.GetFirstPriorityValue of what LoadIntendedStoreOwnerData returned) reaches the priority field of the old TransactionIntent (through AddIntentContent -> NewTransactionIntent) and from there Opts.Priority of the Modify(INTENDED) calls: a rolled-back intent returns with its original priority.")
@@ -576,7 +589,7 @@ func c05(w *core.World, r *core.Report) {
 
 	// ---- DETACHED-CONTEXT
 	r.Rule("DETACHED-CONTEXT", 1, "the rollback started by the expired timer runs with a context that is not tied to any request: the ctx argument of TransactionManager.Rollback in Transaction.rollback originates from context.Background()/TODO() (possibly wrapped by context.With*), never from a field, parameter or the registering request's context - that one is cancelled as soon as the TransactionSet RPC returns, long before the timeout.")
-	if tr := w.Func("pkg/datastore/types", "Transaction", "rollback"); tr != nil {
+	for _, tr := range tcbs {
 		n := 0
 		for _, c := range core.CallsTo(tr, "datastore/types.TransactionManager.Rollback") {
 			n++
